@@ -198,7 +198,7 @@ def run(ctx):
     fzf = ctx.build_fzf()
     rng = ctx.rng
     plans = directed_plans(1000, ctx.pick(2, 8))
-    plans += [random_plan(rng, sid) for sid in range(ctx.pick(36, 300))]
+    plans += [random_plan(rng, sid) for sid in range(ctx.pick(36, 500))]
     for p in plans:                      # template tags -> commands (the driver knows the commands it builds)
         for st in p.steps:
             if "post" in st and st["post"].startswith("change-preview:"):
